@@ -238,14 +238,20 @@ end text
 `printCfg` writes a clause as its keywords and fields separated by single blanks.  For the clause
 regexps that are *templates* — keywords, `\s+`, `(\S+)` words, ending in `(.*)$`, `$` or `\s*$`;
 20 of the 33 — the regenerated regexp (`Gen.*Re`, translated from the Go source on every run) is
-literally the regexp of its template (`templates_are_the_regexps`, by evaluation), and for every
+recognised by `templateOf`, which reads the template off the regexp (`templates_are_the_regexps`), and for every
 template the backtracking matcher (`Re.run`, the model of `FindStringSubmatch` tied to Go's `regexp`
 by K-RE) takes a rendered line apart into exactly the fields it was rendered from, for all fields. -/
 section clause_lines
 open Shk.Re Shk.Tpl
 
-/-- **the regenerated clause regexps are their templates** (re-checked against the Go source on every run) -/
-theorem templates_are_the_regexps : ∀ e ∈ clauseTemplates, e.1 = Tpl.re e.2.1 e.2.2 := by decide
+/-- **the clause regexps in the table are their templates**: whatever `templateOf` reads off a regexp of the current
+source compiles back to exactly that regexp (`templateOf_sound`, proved for every regexp) -/
+theorem templates_are_the_regexps : ∀ e ∈ clauseTemplates, e.1 = Tpl.re e.2.1 e.2.2 := by
+  intro e he
+  simp only [clauseTemplates, namedTemplates, List.mem_map, List.mem_filterMap, Option.map_eq_some_iff] at he
+  obtain ⟨x, ⟨g, _, t, ht, hx⟩, hxe⟩ := he
+  subst hx; subst hxe
+  exact templateOf_sound g.2 t.1 t.2 (by simpa using ht)
 
 /-- group numbers of every template are distinct and start at 1 -/
 theorem templates_well_numbered :
